@@ -176,6 +176,13 @@ func TestVerifC05(t *testing.T) {
 			}
 			if changedByOthers {
 				c.Class("observation-changed-during-iteration(skipped)")
+				// What this iteration saw is unknown - e.g. the master's record expired while the
+				// iteration was still waiting for database timeouts, BEFORE it read the records.
+				// Its failure clock may have started here: count it as a possible bad evaluation
+				// (a bad one too many only makes the delay gate more lenient).
+				if r.masterBefore != "" && (r.stateBefore == stateManager || r.stateAfter == stateManager) {
+					hist[r.p.id+"/"+r.masterBefore] = append(hist[r.p.id+"/"+r.masterBefore], c05Eval{r.t0, true})
+				}
 				return
 			}
 			// the iteration itself may have rewritten the active list (leaving maintenance) before deciding
